@@ -58,7 +58,41 @@ pub enum ErrA {
     Bad { code: i32, why: String },
 }
 
-pub const N_KINDS: usize = 6;
+/// A call type whose field is filled through `deserialize_bytes` (serde's `&[u8]`): zero-copy from
+/// the text of a JSON string, through a different entry point of the JSON deserializer than `&str`.
+#[derive(Debug, Deserialize, PartialEq)]
+#[serde(tag = "method", content = "parameters")]
+pub enum MethBytes<'a> {
+    #[serde(rename = "org.example.Put")]
+    Put {
+        #[serde(borrow)]
+        blob: &'a [u8],
+        n: u32,
+    },
+    #[serde(rename = "org.example.Ping")]
+    Ping,
+}
+
+/// A reply type that owns and borrows at once (it has drop glue and still points into the buffer).
+#[derive(Debug, Deserialize, PartialEq)]
+pub struct MixedReply<'a> {
+    #[serde(borrow)]
+    pub names: Vec<&'a str>,
+    #[serde(borrow, default)]
+    pub blob: Option<&'a [u8]>,
+    #[serde(borrow, default)]
+    pub note: Option<std::borrow::Cow<'a, str>>,
+}
+
+/// An error type with a lifetime: borrows and owns.
+#[derive(Debug, ReplyError, PartialEq)]
+#[zlink(interface = "org.example", crate = "zlink_core")]
+pub enum ErrB<'a> {
+    Gone { what: &'a str, tags: Vec<String> },
+    NotFound,
+}
+
+pub const N_KINDS: usize = 9;
 pub const KIND_NAMES: [&str; N_KINDS] = [
     "receive_call<enum with borrowed str>",
     "receive_call<strict struct>",
@@ -66,7 +100,16 @@ pub const KIND_NAMES: [&str; N_KINDS] = [
     "receive_reply<(), ErrA>",
     "receive_reply<OptParams, ErrA>",
     "receive_reply<StrictReply, ErrA>",
+    "receive_call<enum with borrowed bytes>",
+    "receive_call<serde_json::Value>",
+    "receive_reply<MixedReply (Vec<&str>, &[u8], Cow), ErrB<'a>>",
 ];
+
+/// Target kinds that are replies (receivable through a chain's reply stream as well).
+pub fn is_reply_kind(kind: usize) -> bool {
+    matches!(kind, 3 | 4 | 5 | 8)
+}
+pub const REPLY_KINDS: [usize; 4] = [3, 4, 5, 8];
 
 /// Normalised result of one receive.
 #[derive(Debug, Clone, PartialEq)]
@@ -115,7 +158,16 @@ pub async fn recv_kind(conn: &mut Connection<SimSocket>, kind: usize) -> Res {
         },
         3 => norm_reply(conn.receive_reply::<(), ErrA>().await),
         4 => norm_reply(conn.receive_reply::<OptParams<'_>, ErrA>().await),
-        _ => norm_reply(conn.receive_reply::<StrictReply, ErrA>().await),
+        5 => norm_reply(conn.receive_reply::<StrictReply, ErrA>().await),
+        6 => match conn.receive_call::<MethBytes<'_>>().await {
+            Ok(c) => Res::Ok(format!("{c:?}")),
+            Err(e) => norm_err(e),
+        },
+        7 => match conn.receive_call::<serde_json::Value>().await {
+            Ok(c) => Res::Ok(format!("{c:?}")),
+            Err(e) => norm_err(e),
+        },
+        _ => norm_reply(conn.receive_reply::<MixedReply<'_>, ErrB<'_>>().await),
     }
 }
 
@@ -137,7 +189,16 @@ pub async fn recv_kind_read(rc: &mut ReadConnection<SimReadHalf>, kind: usize) -
         },
         3 => norm_reply(rc.receive_reply::<(), ErrA>().await),
         4 => norm_reply(rc.receive_reply::<OptParams<'_>, ErrA>().await),
-        _ => norm_reply(rc.receive_reply::<StrictReply, ErrA>().await),
+        5 => norm_reply(rc.receive_reply::<StrictReply, ErrA>().await),
+        6 => match rc.receive_call::<MethBytes<'_>>().await {
+            Ok(c) => Res::Ok(format!("{c:?}")),
+            Err(e) => norm_err(e),
+        },
+        7 => match rc.receive_call::<serde_json::Value>().await {
+            Ok(c) => Res::Ok(format!("{c:?}")),
+            Err(e) => norm_err(e),
+        },
+        _ => norm_reply(rc.receive_reply::<MixedReply<'_>, ErrB<'_>>().await),
     }
 }
 
@@ -180,7 +241,8 @@ pub async fn recv_via_chain(world: &World, conn: &mut Connection<SimSocket>, kin
     match kind {
         3 => chain_inner::<(), ErrA>(world, conn, calls, max_items, cancel, out).await,
         4 => chain_inner::<OptParams<'_>, ErrA>(world, conn, calls, max_items, cancel, out).await,
-        _ => chain_inner::<StrictReply, ErrA>(world, conn, calls, max_items, cancel, out).await,
+        5 => chain_inner::<StrictReply, ErrA>(world, conn, calls, max_items, cancel, out).await,
+        _ => chain_inner::<MixedReply<'_>, ErrB<'_>>(world, conn, calls, max_items, cancel, out).await,
     }
 }
 
@@ -223,7 +285,16 @@ pub fn ref_kind(frame: &[u8], kind: usize) -> Res {
         },
         3 => ref_reply::<(), ErrA>(frame),
         4 => ref_reply::<OptParams<'_>, ErrA>(frame),
-        _ => ref_reply::<StrictReply, ErrA>(frame),
+        5 => ref_reply::<StrictReply, ErrA>(frame),
+        6 => match serde_json::from_slice::<Call<MethBytes<'_>>>(frame) {
+            Ok(c) => Res::Ok(format!("{c:?}")),
+            Err(_) => Res::ErrJson,
+        },
+        7 => match serde_json::from_slice::<Call<serde_json::Value>>(frame) {
+            Ok(c) => Res::Ok(format!("{c:?}")),
+            Err(_) => Res::ErrJson,
+        },
+        _ => ref_reply::<MixedReply<'_>, ErrB<'_>>(frame),
     }
 }
 
@@ -299,10 +370,27 @@ pub fn valid_frame(kind: usize, variant: usize, padlen: usize, salt: usize) -> V
             2 => format!(r#"{{"error":"org.varlink.service.MethodNotFound","parameters":{{"method":"{p}"}}}}"#),
             _ => r#"{"parameters":{}}"#.to_string(),
         },
-        _ => match variant % 3 {
+        5 => match variant % 3 {
             0 => format!(r#"{{"parameters":{{"id":{salt},"pad":"{p}"}}}}"#),
             1 => format!(r#"{{"continues":false,"parameters":{{"pad":"{p}","id":1}}}}"#),
             _ => format!(r#"{{"error":"org.example.Bad","parameters":{{"why":"{p}","code":-1}}}}"#),
+        },
+        6 => match variant % 4 {
+            0 => format!(r#"{{"method":"org.example.Put","parameters":{{"blob":"{p}","n":{salt}}}}}"#),
+            1 => format!(r#"{{"parameters":{{"n":{salt},"blob":"{p}"}},"method":"org.example.Put","oneway":true}}"#),
+            2 => format!(r#"{{"method":"org.example.Put","more":true,"parameters":{{"n":7,"blob":"{p}"}}}}"#),
+            _ => r#"{"method":"org.example.Ping"}"#.to_string(),
+        },
+        7 => match variant % 3 {
+            0 => format!(r#"{{"method":"org.example.Echo","parameters":{{"text":"{p}","n":{salt}}}}}"#),
+            1 => format!(r#"{{"anything":["{p}",{salt},null],"oneway":true,"nested":{{"more":true}}}}"#),
+            _ => r#"{}"#.to_string(),
+        },
+        _ => match variant % 4 {
+            0 => format!(r#"{{"parameters":{{"names":["{p}","x{salt}"],"blob":"{p}"}}}}"#),
+            1 => format!(r#"{{"parameters":{{"names":[],"note":"{p}"}},"continues":true}}"#),
+            2 => format!(r#"{{"error":"org.example.Gone","parameters":{{"what":"{p}","tags":["t{salt}"]}}}}"#),
+            _ => r#"{"error":"org.example.NotFound"}"#.to_string(),
         },
     };
     s.into_bytes()
@@ -494,6 +582,16 @@ pub fn gen_script(t: &mut Tape, max_frames: usize) -> Script {
         let f = gen_frame(t, kind, class, padlen);
         debug_assert!(!f.is_empty() && !f.contains(&0));
         offset += f.len() + 1;
+        if class == 0 && f.len() >= 2 && t.draw(10) == 9 {
+            // a NUL in the middle of what would have been a valid document: two frames, each judged
+            // on its own (typically two decode errors; never one message made of both)
+            let cut = if t.draw(2) == 0 { f.len() - 1 - t.draw((f.len() - 1).min(6)) } else { 1 + t.draw(f.len() - 1) };
+            kinds.push(kind);
+            frames.push(f[..cut].to_vec());
+            kinds.push(kind);
+            frames.push(f[cut..].to_vec());
+            continue;
+        }
         kinds.push(kind);
         frames.push(f);
     }
@@ -516,7 +614,8 @@ pub fn corpus() -> Vec<Script> {
     // all valid, two and three frames, every kind
     for k in 0..N_KINDS {
         add(vec![(k, v(k, 3, 0)), (k, v(k, 0, 2))]);
-        add(vec![(k, v(k, 0, 1)), ((k + 3) % N_KINDS, v((k + 3) % N_KINDS, 1, 0)), (k, v(k, 3, 0))]);
+        let k2 = [3usize, 4, 5, 0, 1, 2, 8, 3, 6][k];
+        add(vec![(k, v(k, 0, 1)), (k2, v(k2, 1, 0)), (k, v(k, 3, 0))]);
     }
     // bad frame first / middle / last, then good ones
     for k in [0usize, 3, 5] {
@@ -527,6 +626,15 @@ pub fn corpus() -> Vec<Script> {
         let mut g = v(k, 3, 0);
         g.extend_from_slice(b"x");
         add(vec![(k, g), (k, v(k, 3, 0))]);
+    }
+    // a document cut in two by a NUL inside a string / right behind it / in front of the closing braces
+    for k in [0usize, 6, 8, 5] {
+        let doc = v(k, 0, 3);
+        let text = String::from_utf8(doc.clone()).unwrap();
+        let in_string = text.find("\":\"").map(|p| p + 5).unwrap_or(doc.len() / 2).min(doc.len() - 1);
+        for cut in [in_string, doc.len() - 2, doc.len() - 1] {
+            add(vec![(k, doc[..cut].to_vec()), (k, doc[cut..].to_vec()), (k, v(k, 3, 0))]);
+        }
     }
     // whitespace padding in every position
     for k in [0usize, 3] {
